@@ -29,6 +29,7 @@ LEVEL_TEXT += ' Added clause: every constructor field of a rule, the left-recurs
 TECHNIQUE += '; the PARSER source template hands every content parameter of Grammar.__init__ to the per-parse Grammar'
 LEVEL_TEXT += " Added clause: the generated parser class parses with the model's keywords."
 TECHNIQUE += '; asjson of ten scalar kinds is dumpable'
+TECHNIQUE += '; Grammar.__from_json__ interpreted on decoded members: same rule objects handed on, none changed (C14.R11)'
 LEVEL_NOTE = 'Trusted: dataclass semantics (init=False fields are not constructor parameters); BaseNode.__repr__ omits None values.'
 EXPLANATION = ('Static analysis of /repo sources, TatSu not imported. Field tables are computed from the class table and the '
                'dataclass field declarations through the static MRO.')
